@@ -243,6 +243,46 @@ type C18 struct {
 	BaseChecker
 	paramChanges int
 	probed       int
+	// ghost: the creation fees as set by genesis and by accepted governance messages
+	// (nil or zero coin = no fee). "denom|amount" or "" for unset.
+	classFee, basketFee string
+}
+
+func feeKey(denom, amount string) string {
+	a, ok := new(big.Int).SetString(amount, 10)
+	if !ok || a.Sign() <= 0 || denom == "" {
+		return ""
+	}
+	return denom + "|" + a.String()
+}
+
+func (c *C18) Init(w *World) {
+	s := w.Cur
+	if s.ClassFee != nil && s.ClassFee.Fee != nil {
+		c.classFee = feeKey(s.ClassFee.Fee.Denom, s.ClassFee.Fee.Amount)
+	}
+	if s.BasketFee != nil && s.BasketFee.Fee != nil {
+		c.basketFee = feeKey(s.BasketFee.Fee.Denom, s.BasketFee.Fee.Amount)
+	}
+}
+
+// feesAsSet: the stored fee singletons must be what governance last set.
+func (c *C18) feesAsSet(w *World, s *Snapshot, what string) {
+	have := ""
+	if s.ClassFee != nil && s.ClassFee.Fee != nil {
+		have = feeKey(s.ClassFee.Fee.Denom, s.ClassFee.Fee.Amount)
+	}
+	if have != c.classFee {
+		w.Violate("R1", "class-fee-differs-from-what-governance-set", "%s: the stored class creation fee is %q but genesis / the accepted governance messages set %q (\"\" = no fee)", what, have, c.classFee)
+		return
+	}
+	have = ""
+	if s.BasketFee != nil && s.BasketFee.Fee != nil {
+		have = feeKey(s.BasketFee.Fee.Denom, s.BasketFee.Fee.Amount)
+	}
+	if have != c.basketFee {
+		w.Violate("R1", "basket-fee-differs-from-what-governance-set", "%s: the stored basket creation fee is %q but genesis / the accepted governance messages set %q (\"\" = no fee)", what, have, c.basketFee)
+	}
 }
 
 func init()               { RegisterChecker("C18", func() Checker { return &C18{} }) }
@@ -286,6 +326,23 @@ func (c *C18) AfterTx(w *World, t *TxCtx) {
 	single := len(t.Msgs) == 1
 	if t.Res.OK && t.Signer == AddrStr(govAddr()) {
 		c.paramChanges++
+		for _, m := range t.Msgs {
+			switch msg := m.(type) {
+			case *basetypes.MsgUpdateClassFee:
+				c.classFee = ""
+				if msg.Fee != nil {
+					c.classFee = feeKey(msg.Fee.Denom, msg.Fee.Amount.String())
+				}
+			case *baskettypes.MsgUpdateBasketFee:
+				c.basketFee = ""
+				if msg.Fee != nil {
+					c.basketFee = feeKey(msg.Fee.Denom, msg.Fee.Amount.String())
+				}
+			}
+		}
+	}
+	if c.feesAsSet(w, post, "after tx ["+t.Step.Note+"]"); w.Viol != nil {
+		return
 	}
 	// R4 — bounded liveness: probes whose documented preconditions hold must succeed
 	if t.Step.Probe && single && t.Step.Gas == 0 && t.Step.BankFault == nil {
